@@ -11,6 +11,7 @@ package harness
 import (
 	"encoding/hex"
 	"encoding/json"
+	tstypes "github.com/elys-network/elys/x/tradeshield/types"
 	"math/rand"
 	"os"
 	"os/exec"
@@ -171,6 +172,30 @@ func runC19(t *testing.T, seed int64, n int, out *Out) {
 						txs = append(txs, &histTx{kind: "amm.swapIn.whale", f: J{}, req: TxReq{Signer: u, Msgs: []sdk.Msg{&ammtypes.MsgSwapExactAmountIn{Sender: u.Addr.String(),
 							Routes: []ammtypes.SwapAmountInRoute{{PoolId: p.Id, TokenOutDenom: o}}, TokenIn: sdk.NewCoin(d, res[d].MulRaw(3).QuoRaw(2)), TokenOutMinAmount: I(1), Recipient: u.Addr.String()}}}})
 					}
+				}
+			}
+			if b%11 == 4 {
+				// two owners place limit-buy orders that the market already satisfies (different sizes, same pool) ...
+				for i := 0; i < 2; i++ {
+					u := worlds[0].Accts[1+i]
+					a := I(int64(100_000_000 * (1 + 2*i)))
+					txs = append(txs, &histTx{kind: "ts.spotCreate.executable", f: J{}, req: TxReq{Signer: u, Msgs: []sdk.Msg{&tstypes.MsgCreateSpotOrder{OrderType: tstypes.SpotOrderType_LIMITBUY,
+						OrderPrice:  tstypes.OrderPrice{BaseDenom: "uatom", QuoteDenom: "uusdc", Rate: h.std.Prices["ATOM"].Mul(D("2"))},
+						OrderAmount: sdk.NewCoin("uusdc", a), OwnerAddress: u.Addr.String(), OrderTargetDenom: "uatom"}}}})
+				}
+			}
+			if b%11 == 5 {
+				// ... and one message asks for every pending order to be executed: the orders of one message run in the message's order
+				var sids, pids []uint64
+				for _, o := range worlds[0].App.TradeshieldKeeper.GetAllPendingSpotOrder(worlds[0].Ctx()) {
+					sids = append(sids, o.OrderId)
+				}
+				for _, o := range worlds[0].App.TradeshieldKeeper.GetAllPendingPerpetualOrder(worlds[0].Ctx()) {
+					pids = append(pids, o.OrderId)
+				}
+				if len(sids)+len(pids) > 0 {
+					u := h.user()
+					txs = append(txs, &histTx{kind: "ts.execute.all", f: J{}, req: TxReq{Signer: u, Msgs: []sdk.Msg{&tstypes.MsgExecuteOrders{Creator: u.Addr.String(), SpotOrderIds: sids, PerpetualOrderIds: pids}}}})
 				}
 			}
 			k := 1 + h.r.Intn(3)
